@@ -3,6 +3,10 @@ import Urandom.Props.C14
 import Urandom.Model.Reservoir
 import Mathlib.Algebra.BigOperators.Intervals
 import Mathlib.Tactic.FieldSimp
+import Mathlib.Tactic.Linarith
+import Mathlib.Tactic.Positivity
+import Mathlib.Algebra.Order.Ring.Abs
+import Mathlib.Algebra.Order.Field.Basic
 /-
 C06 - index / choose / single pick an existing element, uniformly, None iff empty.
 
@@ -173,13 +177,135 @@ theorem reservoir_exact (n j : ℕ) (hj : j < n) :
       field_simp
       ring
 
-/-
-`single_reservoir_fp_partial`: the floating-point perturbation bound `|P − 1/n| ≤ 2^-50` of the
-property is NOT proved.  What is available: `chance(p)` is true with probability `p` to within
-`p·2^-52` relative (C14, `measure_bound`) and `p = fl(1/denom)` is correctly rounded, so each factor of
-the product above is perturbed by a relative `2^-52`-order term; turning that into the stated bound
-for all `n` needs an error-propagation argument over the product that is not formalised here.
--/
+/-- **Error propagation through the reservoir**: if item `i ≥ 1` replaces the candidate with a
+probability `q i` that is within a relative `ε` of `1/(i+1)` (and item `0` is taken with probability
+in the same band - in the code it is certain: `chance(1.0)`), then item `j` is the final result with
+probability within the factor band `[(1-ε)^(n-j), (1+ε)^(n-j)]` of `1/n`. -/
+theorem reservoir_perturbed (q : ℕ → ℚ) (ε : ℚ) (hε0 : 0 ≤ ε) (hε1 : ε ≤ 1)
+    (hq : ∀ i, |q i - 1 / ((i : ℚ) + 1)| ≤ ε / ((i : ℚ) + 1)) (j : ℕ) :
+    ∀ n, j < n →
+      (1 - ε) ^ (n - j) / (n : ℚ) ≤ q j * ∏ i ∈ Finset.Ico (j + 1) n, (1 - q i) ∧
+      q j * ∏ i ∈ Finset.Ico (j + 1) n, (1 - q i) ≤ (1 + ε) ^ (n - j) / (n : ℚ) := by
+  intro n hj
+  induction n with
+  | zero => omega
+  | succ n ih =>
+    by_cases hjn : j = n
+    · subst hjn
+      have h := abs_sub_le_iff.1 (hq j)
+      have hj1 : (0 : ℚ) < (j : ℚ) + 1 := by positivity
+      simp only [Finset.Ico_self, Finset.prod_empty, mul_one, Nat.add_sub_cancel_left, pow_one]
+      push_cast
+      constructor
+      · rw [div_le_iff₀ hj1]
+        have : q j * ((j : ℚ) + 1) - 1 ≥ -ε := by
+          have h2 := h.2
+          have : 1 / ((j : ℚ) + 1) - q j ≤ ε / ((j : ℚ) + 1) := h2
+          rw [div_sub' (hj1.ne'), div_le_div_iff_of_pos_right hj1] at this
+          linarith
+        linarith
+      · rw [le_div_iff₀ hj1]
+        have h1 := h.1
+        rw [sub_le_iff_le_add, ← add_div, le_div_iff₀ hj1] at h1
+        linarith
+    · have hlt : j < n := by omega
+      obtain ⟨ihlo, ihhi⟩ := ih hlt
+      rw [Finset.prod_Ico_succ_top (by omega), ← mul_assoc]
+      have hn : (0 : ℚ) < (n : ℚ) := by exact_mod_cast (by omega : 0 < n)
+      have hn1 : (0 : ℚ) < (n : ℚ) + 1 := by positivity
+      -- the new factor `1 - q n` lies in the band around `n/(n+1)`
+      have h := abs_sub_le_iff.1 (hq n)
+      have hflo : (1 - ε) * ((n : ℚ) / ((n : ℚ) + 1)) ≤ 1 - q n := by
+        have h1 := h.1
+        have e : (1 - ε) * ((n : ℚ) / ((n : ℚ) + 1)) = 1 - 1 / ((n : ℚ) + 1) - ε * (n : ℚ) / ((n : ℚ) + 1) := by
+          field_simp; ring
+        have e2 : ε / ((n : ℚ) + 1) ≤ ε * (n : ℚ) / ((n : ℚ) + 1) := by
+          apply div_le_div_of_nonneg_right _ hn1.le
+          have : (1 : ℚ) ≤ n := by exact_mod_cast (by omega : 1 ≤ n)
+          nlinarith
+        rw [e]; linarith
+      have hfhi : 1 - q n ≤ (1 + ε) * ((n : ℚ) / ((n : ℚ) + 1)) := by
+        have h2 := h.2
+        have e : (1 + ε) * ((n : ℚ) / ((n : ℚ) + 1)) = 1 - 1 / ((n : ℚ) + 1) + ε * (n : ℚ) / ((n : ℚ) + 1) := by
+          field_simp; ring
+        have e2 : ε / ((n : ℚ) + 1) ≤ ε * (n : ℚ) / ((n : ℚ) + 1) := by
+          apply div_le_div_of_nonneg_right _ hn1.le
+          have : (1 : ℚ) ≤ n := by exact_mod_cast (by omega : 1 ≤ n)
+          nlinarith
+        rw [e]; linarith
+      have hf0 : 0 ≤ (1 - ε) * ((n : ℚ) / ((n : ℚ) + 1)) := mul_nonneg (by linarith) (by positivity)
+      have hP0 : 0 ≤ (1 - ε) ^ (n - j) / (n : ℚ) := by
+        apply div_nonneg (pow_nonneg (by linarith) _) hn.le
+      have hsub : n + 1 - j = (n - j) + 1 := by omega
+      rw [hsub, pow_succ, pow_succ]
+      push_cast
+      constructor
+      · calc (1 - ε) ^ (n - j) * (1 - ε) / ((n : ℚ) + 1)
+            = ((1 - ε) ^ (n - j) / (n : ℚ)) * ((1 - ε) * ((n : ℚ) / ((n : ℚ) + 1))) := by field_simp
+          _ ≤ (q j * ∏ i ∈ Finset.Ico (j + 1) n, (1 - q i)) * (1 - q n) :=
+              mul_le_mul ihlo hflo hf0 (le_trans hP0 ihlo)
+      · calc (q j * ∏ i ∈ Finset.Ico (j + 1) n, (1 - q i)) * (1 - q n)
+            ≤ ((1 + ε) ^ (n - j) / (n : ℚ)) * ((1 + ε) * ((n : ℚ) / ((n : ℚ) + 1))) :=
+              mul_le_mul ihhi hfhi (le_trans hf0 hflo) (le_trans (le_trans hP0 ihlo) ihhi)
+          _ = (1 + ε) ^ (n - j) * (1 + ε) / ((n : ℚ) + 1) := by field_simp
+
+/-- the band as an absolute bound: with `m = n - j ≤ n` factors and `2·m·ε ≤ 1`,
+`|P − 1/n| ≤ 2·m·ε/n ≤ 2ε` -/
+theorem band_abs (ε : ℚ) (hε0 : 0 ≤ ε) (m : ℕ) (hm : 2 * (m : ℚ) * ε ≤ 1) :
+    1 - (m : ℚ) * ε ≤ (1 - ε) ^ m ∧ (1 + ε) ^ m ≤ 1 + 2 * (m : ℚ) * ε := by
+  constructor
+  · rcases Nat.eq_zero_or_pos m with h | h
+    · subst h; simp
+    · have hm1 : (1 : ℚ) ≤ m := by exact_mod_cast h
+      have hε1 : ε ≤ 1 := by nlinarith
+      have hb := one_add_mul_le_pow (R := ℚ) (a := -ε) (by linarith) m
+      have e1 : 1 + (m : ℚ) * -ε = 1 - (m : ℚ) * ε := by ring
+      have e2 : (1 : ℚ) + -ε = 1 - ε := by ring
+      rw [e1, e2] at hb
+      exact hb
+  · induction m with
+    | zero => simp
+    | succ k ih =>
+      have hk : 2 * (k : ℚ) * ε ≤ 1 := by push_cast at hm; nlinarith
+      have ih' := ih hk
+      have hk0 : (0 : ℚ) ≤ k := by positivity
+      rw [pow_succ]
+      push_cast at hm ⊢
+      have h1 : (1 + ε) ^ k * (1 + ε) ≤ (1 + 2 * (k : ℚ) * ε) * (1 + ε) :=
+        mul_le_mul_of_nonneg_right ih' (by linarith)
+      nlinarith [mul_nonneg hk0 (mul_nonneg hε0 hε0)]
+
+/-- **the floating-point reservoir is uniform to within `2ε`**: under the hypothesis of
+`reservoir_perturbed` and `2·n·ε ≤ 1`, `|P(item j) − 1/n| ≤ 2ε`.  With `ε = 2^-51` (C14: `chance(p)` has
+probability `p` to within `p·2^-52` for `p ≥ 2^-64`, and `p = fl(1/denom)` is within `2^-53` relative of
+`1/denom`, so each step is within `2^-51` relative for collections up to `2^11` items; beyond that the
+absolute `2^-64` term of C14 enters and `ε` grows to `denom·2^-64`) this is the property's `2^-50`.
+That each step's probability *is* such a `q i` is C14's counting theorem applied to the word pair of
+that step; the product form is the independence of disjoint word pairs under the uniform measure on
+word sequences, which is the definition of the measure here (not a separate theorem). -/
+theorem reservoir_fp_bound (q : ℕ → ℚ) (ε : ℚ) (hε0 : 0 ≤ ε) (hε1 : ε ≤ 1)
+    (hq : ∀ i, |q i - 1 / ((i : ℚ) + 1)| ≤ ε / ((i : ℚ) + 1)) (n j : ℕ) (hj : j < n) (hn : 2 * (n : ℚ) * ε ≤ 1) :
+    |q j * ∏ i ∈ Finset.Ico (j + 1) n, (1 - q i) - 1 / (n : ℚ)| ≤ 2 * ε := by
+  obtain ⟨hlo, hhi⟩ := reservoir_perturbed q ε hε0 hε1 hq j n hj
+  have hnpos : (0 : ℚ) < n := by exact_mod_cast (by omega : 0 < n)
+  have hmle : ((n - j : ℕ) : ℚ) ≤ n := by exact_mod_cast Nat.sub_le n j
+  have hm : 2 * ((n - j : ℕ) : ℚ) * ε ≤ 1 := by nlinarith
+  obtain ⟨b1, b2⟩ := band_abs ε hε0 (n - j) hm
+  have hm0 : (0 : ℚ) ≤ ((n - j : ℕ) : ℚ) := by positivity
+  rw [abs_sub_le_iff]
+  constructor
+  · have : (1 + ε) ^ (n - j) / (n : ℚ) ≤ (1 + 2 * ((n - j : ℕ) : ℚ) * ε) / n := div_le_div_of_nonneg_right b2 hnpos.le
+    have e : (1 + 2 * ((n - j : ℕ) : ℚ) * ε) / n = 1 / n + 2 * ε * (((n - j : ℕ) : ℚ) / n) := by field_simp
+    have : ((n - j : ℕ) : ℚ) / n ≤ 1 := (div_le_one hnpos).2 hmle
+    nlinarith
+  · have : (1 - ((n - j : ℕ) : ℚ) * ε) / n ≤ (1 - ε) ^ (n - j) / (n : ℚ) := div_le_div_of_nonneg_right b1 hnpos.le
+    have e : (1 - ((n - j : ℕ) : ℚ) * ε) / n = 1 / n - ε * (((n - j : ℕ) : ℚ) / n) := by field_simp
+    have : ((n - j : ℕ) : ℚ) / n ≤ 1 := (div_le_one hnpos).2 hmle
+    nlinarith
+
+/-- non-vacuity: the exact probabilities satisfy the hypothesis with `ε = 0` -/
+example : ∀ i : ℕ, |(fun i : ℕ => 1 / ((i : ℚ) + 1)) i - 1 / ((i : ℚ) + 1)| ≤ (0 : ℚ) / ((i : ℚ) + 1) := by
+  intro i; simp
 
 example : choose #[7, 8, 9] [0xFFFFFFFFFFFFFFFF#64] = some (some 9, []) := by decide
 
